@@ -5,8 +5,8 @@ import os, random, subprocess, time
 from . import vlib
 from .vlib import log
 
-UN = ["then", "uerr", "udone", "md", "dao", "uns", "tag", "src", "era"]
-BIN = ["lv", "le", "ld", "seq", "fin", "wa", "sw"]
+UN = ["then", "uerr", "udone", "md", "dao", "uns", "tag", "src", "era", "iv", "dfr", "alc"]
+BIN = ["lv", "le", "ld", "seq", "fin", "wa", "sw", "any"]
 
 
 class Gen:
@@ -34,8 +34,12 @@ class Gen:
             return f"(just {self.r.randint(0, 9)})"
         if k < 0.75:
             return f"(jerr {self.r.randint(1, 9)})"
-        if k < 0.82:
+        if k < 0.80:
             return "(jdone)"
+        if k < 0.84:
+            return f"(jfrom {self.r.randint(0, 9)})"
+        if k < 0.87:
+            return f"(jvod {self.r.randint(0, 1)})"
         return f"(argv {self.r.randint(0, 5)})"
 
     def expr(self, depth=0, in_let=False):
@@ -88,34 +92,57 @@ class Gen:
         return f"{cid} | {e} | {' '.join(specs)} | {' '.join(evs)}"
 
 
+def _clean_fn(fn):
+    import re
+    prev = None
+    while prev != fn:                      # drop template arguments
+        prev = fn
+        fn = re.sub(r"<[^<>]*>", "", fn)
+    if fn.startswith("decltype"):          # "decltype (...) real::name(args)"
+        depth = 0
+        for i, ch in enumerate(fn):
+            if ch == "(":
+                depth += 1
+            elif ch == ")":
+                depth -= 1
+                if depth == 0:
+                    fn = fn[i + 1:].strip()
+                    break
+    fn = fn.split("(")[0].strip()
+    fn = re.sub(r"^(void|auto|bool|int) ", "", fn)
+    return fn.split(" ")[-1] if fn else fn
+
+
 def crash_site(err):
     """stable site string from an ASan/UBSan report: error kind + the first two /repo frames"""
     import re
     kind = "crash"
-    m = re.search(r"ERROR: AddressSanitizer: ([a-z\-]+)", err)
+    m = re.search(r"ERROR: AddressSanitizer: ([A-Za-z\-]+)", err)
     if m:
         kind = "asan " + m.group(1)
+        if m.group(1) == "ABRT":
+            kind = "terminate" if "terminate called" in err else "abort"
     elif "runtime error:" in err:
         kind = "ubsan " + err.split("runtime error:")[1].split("\n")[0].strip()[:60]
+    elif "terminate called" in err:
+        kind = "terminate"
     frames = []
     for m in re.finditer(r"#\d+ 0x[0-9a-f]+ in (.+?) (/repo/\S+?):(\d+)", err):
-        fn = m.group(1)
-        fn = re.sub(r"<.*", "", fn)            # drop template arguments
-        fn = fn.split("(")[0]
-        if fn not in frames and not fn.startswith("std::"):
+        fn = _clean_fn(m.group(1))
+        if fn and fn not in frames and not fn.startswith("std::") and not fn.startswith("_Z") and "operator" not in fn and "tag_invoke" not in fn:
             frames.append(fn)
-        if len(frames) == 2:
+        if len(frames) == (1 if kind == "terminate" else 2):
             break
     return kind + (" in " + " <- ".join(frames) if frames else "")
 
 
-def run_lines(exe, lines, prefix, timeout=900):
+def run_lines(exe, lines, prefix, timeout=900, max_crashes=25):
     """run all lines; the harness may crash on a case (sanitizer abort): record it and continue after it.
     returns (outputs aligned with lines — None for a crashed case, crashes[list of (index, site, stderr)])"""
     out = [None] * len(lines)
     crashes = []
     start = 0
-    env = dict(os.environ, ASAN_OPTIONS="detect_leaks=0:abort_on_error=0:symbolize=1", UBSAN_OPTIONS="print_stacktrace=1")
+    env = dict(os.environ, ASAN_OPTIONS="detect_leaks=0:abort_on_error=0:symbolize=1:handle_abort=1", UBSAN_OPTIONS="print_stacktrace=1")
     t0 = time.time()
     while start < len(lines):
         inp = "".join(prefix + l + "\n" for l in lines[start:])
@@ -132,7 +159,7 @@ def run_lines(exe, lines, prefix, timeout=900):
             break
         crashes.append((start + n, crash_site(r.stderr), r.stderr[-3000:]))
         start = start + n + 1
-        if len(crashes) > 200:
+        if len(crashes) >= max_crashes:
             break
     return out, crashes
 
@@ -141,15 +168,19 @@ class EventPart:
     """site_prefix distinguishes the property using this part (C01 looks at monitors, C05 at outcomes…)"""
 
     def __init__(self, name="evt", n_quick=3000, n_thorough=60000, max_size=12, max_size_thorough=25, std=None,
-                 extra_flags=(), monitors_only=False, report_crashes=True):
+                 extra_flags=(), monitors_only=False, report_crashes=True, extra_cases=None, src_file="evt.cpp",
+                 faults_quick=0, faults_thorough=0):
         self.name, self.n_quick, self.n_thorough = name, n_quick, n_thorough
         self.max_size, self.max_size_thorough, self.std, self.extra_flags = max_size, max_size_thorough, std, extra_flags
         self.monitors_only = monitors_only
         self.report_crashes = report_crashes
+        self.extra_cases = extra_cases
+        self.src_file = src_file
+        self.faults_quick, self.faults_thorough = faults_quick, faults_thorough
 
     def run(self, tier, seed, verdict, cov, driver):
         t0 = time.time()
-        src = os.path.join(vlib.VERIF, "harness", "evt", "evt.cpp")
+        src = os.path.join(vlib.VERIF, "harness", "evt", self.src_file)
         try:
             exe = vlib.build_plain(src, ["inplace_stop_token.cpp"], self.extra_flags, self.std, sanitize="address,undefined", name="evt")
         except vlib.BuildError as e:
@@ -164,7 +195,8 @@ class EventPart:
         if os.path.isdir(cdir):
             for fn in sorted(os.listdir(cdir)):
                 corpus += [l.strip() for l in open(os.path.join(cdir, fn)) if l.strip() and not l.startswith("#")]
-        lines = corpus + [g.case(i) for i in range(n)]
+        extra = self.extra_cases(tier, seed) if self.extra_cases else []
+        lines = corpus + extra + [g.case(i) for i in range(n)]
         try:
             impl, crashes = run_lines(exe, lines, "case ")
         except subprocess.TimeoutExpired:
@@ -179,6 +211,14 @@ class EventPart:
                         dict(stream=self.name, case=lines[k], sanitizer_report=err), found_input=True)
         keep = [i for i, x in enumerate(impl) if x is not None]
         lines = [lines[i] for i in keep]; impl = [impl[i] for i in keep]
+        moves = []
+        for k, x in enumerate(impl):
+            if " # moves=" in x:
+                x, _, m = x.rpartition(" # moves=")
+                impl[k] = x
+                moves.append(int(m))
+            else:
+                moves.append(0)
         model = [driver.ask("ask calc run | " + l) for l in lines]
         distinct = set()
         hist = {}
@@ -189,7 +229,7 @@ class EventPart:
             for tok in l.split("|")[1].replace("(", " ").replace(")", " ").split():
                 if tok.isalpha():
                     hist[tok] = hist.get(tok, 0) + 1
-            if "!!root" in a or "!!completion" in a or "!!leak" in a:
+            if "!!root" in a or "!!completion" in a or "!!leak" in a or "!!tvleak" in a:
                 verdict.add(f"{self.name}: monitor {a.split('!!')[1].split(',')[0].split(' ')[0]}", f"implementation monitor fired: {a}",
                             dict(stream=self.name, case=l, impl=a, model=b), found_input=True)
             if a != b:
@@ -203,6 +243,39 @@ class EventPart:
                                 dict(stream=self.name, case=l, impl=a, model=b, broken="correspondence evt vs Calc.deliver"), found_input=(ra != rb))
             elif "lp" in a or " | " in a.split(" | ", 1)[-1]:
                 distinct.add(a.split(" | ", 1)[-1] + "#" + l.split("|")[1])
+        # ---- fault injection (C02): the K-th move of a tracked value throws; only the monitors judge
+        nf = self.faults_quick if tier == "quick" else self.faults_thorough
+        if nf:
+            # a FIXED corpus (independent of VERIF_SEED), so that the set of failing sites on the unchanged
+            # tree is the same on every run and the known findings recorded for it are complete
+            fg = Gen(random.Random(424242), 10)
+            fbase = [fg.case(f"f{i}") for i in range(nf)]
+            fb_out, fb_cr = run_lines(exe, fbase, "case ")
+            flines = []
+            for l, a in zip(fbase, fb_out):
+                if a is None or " # moves=" not in a:
+                    continue
+                m = int(a.rpartition(" # moves=")[2])
+                for k in range(1, min(m, 10) + 1):
+                    flines.append(f"{l} | throw={k}")
+            try:
+                fout, fcr = run_lines(exe, flines, "case ", timeout=2400, max_crashes=1000)
+            except subprocess.TimeoutExpired:
+                fout, fcr = [], []
+                verdict.add(f"{self.name}: fault harness timeout", "fault-injection run timed out", dict(stream=self.name), found_input=False)
+            cov["fault_cases"] = cov.get("fault_cases", 0) + len(flines)
+            cov["fault_fired"] = cov.get("fault_fired", 0) + sum(1 for x in fout if x and "e77" in x)
+            cov["evaluations"] += len(flines)
+            for k, site, err in fcr:
+                verdict.add(f"{self.name}: fault {site}", f"with an injected throwing move the real library aborted: {flines[k]}",
+                            dict(stream=self.name, case=flines[k], sanitizer_report=err), found_input=True)
+            for l, a in zip(flines, fout):
+                if a and "!!" in a.replace("!!bad-op", ""):
+                    what = a.replace("!!bad-op", "").split("!!")[1].split(",")[0].split(" ")[0].split("=")[0]
+                    verdict.add(f"{self.name}: fault monitor {what}", f"with an injected throwing move: {a}",
+                                dict(stream=self.name, case=l, impl=a), found_input=True)
+            if flines:
+                cov["samples"].append(dict(stream=self.name + "/fault", case=flines[0], observation=fout[0] if fout else None))
         cov["distinct_nontrivial"] += len(distinct)
         cov["rejected_histories"] += mism
         cov.setdefault("node_histogram", {}).update(hist)
